@@ -958,7 +958,7 @@ func runC04(c *Ctx) {
 				want := map[string]string{"cellWidth": "TerminalCellWidth", "height": "Height"}[fname]
 				ok := false
 				for _, fs := range c.StoresTo(f) {
-					if fs.Fn == ds {
+					if inDs[fs.Fn] {
 						if call, isCall := fs.St.Val.(*ssa.Call); isCall && call.Call.StaticCallee() != nil && call.Call.StaticCallee().Name() == want {
 							ok = true
 						}
